@@ -109,6 +109,24 @@ func decodeToWriter(w io.Writer, r io.Reader) (int64, error) {
 	}
 }
 
+// armorDecoder is the io.Reader returned by NewArmorDecoder: the base64 decoder
+// reading from the pipe that decodeToWriter writes to.
+type armorDecoder struct {
+	r  io.Reader
+	pr *io.PipeReader
+}
+
+func (dec *armorDecoder) Read(p []byte) (int, error) {
+	n, err := dec.r.Read(p)
+	if err != nil && err != io.EOF {
+		// The base64 decoder has failed and will not read from the pipe
+		// again. Close the read side, otherwise the goroutine running
+		// decodeToWriter stays blocked in a pipe write forever.
+		dec.pr.CloseWithError(err)
+	}
+	return n, err
+}
+
 // NewArmorDecoder returns a new AMP armor decoder.
 func NewArmorDecoder(r io.Reader) (io.Reader, error) {
 	pr, pw := io.Pipe()
@@ -127,7 +145,10 @@ func NewArmorDecoder(r io.Reader) (io.Reader, error) {
 	}
 	switch version[0] {
 	case '0':
-		return base64.NewDecoder(base64.StdEncoding, pr), nil
+		return &armorDecoder{
+			r:  base64.NewDecoder(base64.StdEncoding, pr),
+			pr: pr,
+		}, nil
 	default:
 		err := ErrUnknownVersion(version[0])
 		pr.CloseWithError(err)
